@@ -30,7 +30,9 @@ def ref_compose_id(release, base_product, compose):
 def paths_desc(draw, arches):
     cats = draw(gen.subsets(PATH_CATEGORIES, max_size=5)) if draw(st.integers(0, 3)) else draw(gen.subsets(PATH_CATEGORIES))
     out = {}
-    candidates = sorted(set(arches) | set(draw(gen.subsets(gen.ARCH_POOL, max_size=2))))
+    # keys outside the variant's own arch set: other arches, and the pseudo-arch "src" (which queries treat as matching every
+    # variant - but a path table keyed by it is still a table for an architecture the variant does not have)
+    candidates = sorted(set(arches) | set(draw(gen.subsets(gen.ARCH_POOL + ["src", "src", "noarch"], max_size=2))))
     for cat in cats:
         sel = draw(gen.subsets(candidates, min_size=1))
         out[cat] = {a: draw(st.one_of(gen.rel_path, gen.rel_path, gen.rel_path, st.just(""))) for a in sel}
